@@ -170,6 +170,7 @@ class Folder(object):
         if isinstance(e, ast.Name):
             if e.id in env:
                 return env[e.id]
+            self._cur_env = env
             return self._global(e.id, at)
         if isinstance(e, ast.Attribute):
             base = self._e(e.value, env, at) if not self._is_module_ref(e.value, at) else U
@@ -306,6 +307,17 @@ class Folder(object):
         b = self.prog.lookup(name, at)
         if b[0] == "value":
             return self._e(b[2], {}, b[2])
+        if b[0] == "local" and isinstance(b[1], (ast.FunctionDef, ast.AsyncFunctionDef)):
+            # a local bound exactly once: fold its definition in the caller's environment
+            defs = [n for n in ast.walk(b[1]) if isinstance(n, ast.Assign) and any(isinstance(t, ast.Name) and t.id == name for t in n.targets)]
+            if len(defs) == 1 and not any(isinstance(x, ast.Name) and x.id == name for x in ast.walk(defs[0].value)):
+                self._local_depth = getattr(self, "_local_depth", 0) + 1
+                try:
+                    if self._local_depth <= 6:
+                        return self._e(defs[0].value, self._cur_env, defs[0].value)
+                finally:
+                    self._local_depth -= 1
+            return UNKNOWN
         if b[0] == "ext":
             if b[1] == "sys.version_info":
                 return tuple(sys.version_info)
